@@ -77,7 +77,7 @@ class TimeTriggerDecorator(TriggerDecorator):
     run_on_startup: bool = False
     run_on_shutdown: bool = False
     timespec: list[str]
-    _cycle_task: asyncio.Task
+    _cycle_task: asyncio.Task | None = None
 
     async def validate(self) -> None:
         """Validate the decorator arguments."""
@@ -121,7 +121,10 @@ class TimeTriggerDecorator(TriggerDecorator):
                 )
                 if time_next is None:
                     _LOGGER.debug("trigger %s finished", self.name)
-                    if isinstance(self.dm, WaitUntilDecoratorManager):
+                    if isinstance(self.dm, WaitUntilDecoratorManager) and self.dm.get_decorators(
+                        TriggerDecorator
+                    ) == [self]:
+                        # "none" only when nothing else (other trigger, timeout) can end the wait
                         await self.dispatch(DispatchData({"trigger_type": "none"}))
                     break
 
